@@ -35,7 +35,7 @@ struct Run {
 	bool exited = false;
 	bool busy = false, stream_stop = false; int n_stream = 0;
 	int up_codec = 0, up_frag = 0;   // upstream codec and exact size of a non-final upstream fragment, read off the wire
-	int n_crafted = 0;
+	int n_crafted = 0, n_boundary = 0;
 	std::vector<std::string> classes;
 };
 
@@ -346,6 +346,24 @@ inline void run_tunnel(Tape &t, Mode mode, Run &R)
 					}
 				}
 			}
+			// Boundary sizes (clean mode, one offer in five once the fragment size in use is known from the wire): an incompressible packet
+			// whose compressed form is m full fragments plus 0, 1, 2 or F-1 bytes, so that the last fragment carries exactly 1 or 2 bytes, or
+			// is full, or one short of full.
+			if (mode == CLEAN && !c.raw_mode && o.pkt.size() >= 24 && o.pkt.size() % 5 == 0 && (o.side < 0 ? (o.dst >= 0 && o.dst < 9) : o.dst < 0)) {
+				int F = o.side < 0 ? R.down_frag : R.up_frag;
+				if (F >= 20 && F <= 1100) {
+					int m = 1 + (int)(o.pkt.size() / 5 % 4);
+					static const int RR[] = {1, 2, 0, -1, 1};
+					int rr = RR[o.pkt.size() / 20 % 5];
+					long n = (long)m * F + rr - 11;
+					if (n >= 24 && n <= 1400) {
+						Bytes P(o.pkt.begin(), o.pkt.begin() + 24);
+						uint32_t x = (uint32_t)(o.pkt.size() * 2246822519u + (uint32_t)next) | 1;
+						while ((long)P.size() < n) { x ^= x << 13; x ^= x >> 17; x ^= x << 5; P.push_back((uint8_t)(x >> 11)); }
+						if ((long)refproto::zcompress(P).size() == n + 11) { o.pkt = P; o.judged = true; R.n_boundary++; }
+					}
+				}
+			}
 			sim::W.offer_tun(o.side < 0 ? s.srv : s.cli[o.side], o.pkt);
 		}
 		if (next >= R.offers.size() && mode != CLEAN && mode != REDELIVER) { sim::W.run_until(horizon); break; }
@@ -429,6 +447,7 @@ inline void run_tunnel(Tape &t, Mode mode, Run &R)
 		}
 	}
 	if (R.n_crafted) R.classes.push_back("crafted-zlib-stream-at-the-fragment-boundary");
+	if (R.n_boundary) R.classes.push_back("last-fragment-of-1-2-F-1-or-F-bytes");
 	if (R.fn.n_drop + R.fn.n_dup + R.fn.n_delay > 0) R.classes.push_back("faults-hit");
 	if (R.multi_frag_delivered) R.classes.push_back("multi-fragment-delivered");
 	if (R.delivered >= 9) R.classes.push_back("seqno-wrap");
